@@ -345,7 +345,7 @@ class NSMonitor:
 
     def check_latent(self, p, z):
         lp = getattr(p, "latent_prior", None)
-        if lp not in ("truncated_gaussian", "uniform_nsphere", "uniform_nball", "uniform"):
+        if lp not in ("truncated_gaussian", "uniform_nsphere", "uniform_nball"):
             return
         if not self.ctx.phase.endswith("/populate"):
             return
@@ -401,7 +401,8 @@ def result_oracle_ns(ctx, fs, cut_by_cap):
     if not oracles.close(fs.logZ_error, err_ref, rtol=1e-7, atol=1e-9):
         viol("RES-NS-logZ-error", {"reported": float(fs.logZ_error), "recomputed": err_ref})
     if not (np.isfinite(fs.logZ) and np.isfinite(fs.logZ_error) and fs.logZ_error > 0):
-        viol("RES-NS-finite", {"logZ": float(fs.logZ), "err": float(fs.logZ_error)})
+        # not part of C05 (finiteness of the uncertainty is C06's calibration clause): probe only
+        ctx.probe("result_error_not_finite_positive")
     lpw = np.asarray(ns.state.log_posterior_weights)
     if not oracles.close(lpw, ref["log_post_w"], rtol=1e-9, atol=1e-9):
         viol("RES-NS-weights", {"n": len(lpw), "n_ref": len(ref["log_post_w"])})
